@@ -730,6 +730,10 @@ func sessCases(thorough bool) []sessCase {
 		}
 	}
 	add("websocket", false, "send", "ws-msg")
+	// the peer goes away while a batch of the application is being written (several frames)
+	add("websocket", false, "ws-drop", "send2")
+	add("websocket", false, "ws-close-frame", "send2")
+	add("webtransport", false, "wt-drop", "send2")
 	all := append(append([]string{}, wsCauses...), wsNeutral...)
 	for i, a := range wsCauses {
 		add("websocket", false, a)
@@ -769,6 +773,18 @@ func registerSessionUnits(prop string) {
 	}
 	for _, sc := range sessCases(true) {
 		sc := sc
+		if prop == "C09" {
+			fault := false
+			for _, a := range sc.actions {
+				switch a {
+				case "ws-drop", "ws-close-frame", "ws-garbage", "wt-drop", "wt-garbage", "abort-poll", "garbage", "overlap-poll":
+					fault = true
+				}
+			}
+			if !fault || len(sc.actions) != 2 {
+				continue
+			}
+		}
 		register(prop, "session/"+strings.ReplaceAll(sc.id(), " ", "_"), !quick[sc.id()], func(c *Ctx) {
 			bound := Pick(c, 2, 3)
 			if len(sc.actions) > 2 || sc.actor {
@@ -787,6 +803,8 @@ func init() {
 	registerSessionUnits("C03")
 	registerSessionUnits("C04")
 	registerSessionUnits("C11")
+	// C09: the histories in which the peer misbehaves or disappears, under "no thread panics" only
+	registerSessionUnits("C09")
 }
 
 var _ = sort.Strings
